@@ -335,6 +335,7 @@ def run(ctx):
     # like the same definition built at once (the scenario is C19's; its containers are the LineageModel program above)
     from props import C19
     C19.incremental_lineage_models(ctx, rng, 8 if ctx.quick() else 120)
+    C19.parameter_free_rules(ctx)
 
 
 def replay(ctx, obj):
